@@ -47,6 +47,57 @@ type c06Sess struct {
 	pt      c06PeerType
 	taw     bool // revised error handling (treat-as-withdraw) enabled
 	addPath bool // path identifiers on ipv4-unicast and ipv6-unicast towards gobgp
+	// layer 4 (several sessions per neighbour with changing capabilities); zero values = the sessions of layers 1-3
+	as2   bool // the speaker does not announce the four-octet AS number capability: AS numbers are 2 octets on the wire
+	ext   bool // extended message capability announced
+	noV6  bool // ipv6-unicast not announced
+	apFam int  // with addPath: 0 both families, 1 ipv4-unicast only, 2 ipv6-unicast only
+}
+
+func (s c06Sess) ap4() bool { return s.addPath && s.apFam != 2 }
+func (s c06Sess) ap6() bool { return s.addPath && s.apFam != 1 }
+
+// caps is a short rendering of the decoding-relevant session options.
+func (s c06Sess) caps() string {
+	b := func(x bool) int {
+		if x {
+			return 1
+		}
+		return 0
+	}
+	return fmt.Sprintf("as4=%d,ap4=%d,ap6=%d,ext=%d,v6=%d", b(!s.as2), b(s.ap4()), b(s.ap6()), b(s.ext), b(!s.noV6))
+}
+
+// c06ASPathTo2 re-encodes an AS_PATH value built with 4-octet AS numbers into the 2-octet form.
+func c06ASPathTo2(v []byte) []byte {
+	var out []byte
+	for len(v) >= 2 {
+		n := int(v[1])
+		out = append(out, v[0], v[1])
+		v = v[2:]
+		for i := 0; i < n && len(v) >= 4; i++ {
+			out = append(out, v[2], v[3])
+			v = v[4:]
+		}
+	}
+	return out
+}
+
+// c06ForSession adapts well-formed attributes built for a four-octet session to the session's AS number width.
+func c06ForSession(s c06Sess, as []c06Attr) {
+	if !s.as2 {
+		return
+	}
+	for i := range as {
+		switch as[i].typ {
+		case c06TASPath:
+			as[i].val = c06ASPathTo2(as[i].val)
+		case c06TAggregator:
+			if len(as[i].val) == 8 {
+				as[i].val = as[i].val[2:]
+			}
+		}
+	}
 }
 
 func (s c06Sess) String() string {
@@ -129,7 +180,7 @@ func c06GoodASPath(pt c06PeerType, sh int) []byte {
 	case 1: // trailing AS_SET
 		v = append(v, c06Seg(1, 64600, 64601)...)
 	case 2: // second sequence segment
-		v = append(v, c06Seg(2, 64513, 64514, 64515)...)
+		v = append(v, c06Seg(2, 64513, 4200000001, 64515)...)
 	case 3: // shortest legal path
 		switch pt {
 		case c06EBGP:
